@@ -3,6 +3,7 @@
   ['leaf', src]                 a Python literal given as source
   ['list', [n...]]  ['tuple', [n...]]  ['set', [n...]]  ['frozenset', [n...]]
   ['dict', [[k, v]...]]
+  ['ulist', [n...]]  ['utuple', [n...]]  ['udict', [[k, v]...]]   instances of vf.subcls.PlainList / PlainTuple / PlainDict
   ['box', [n...], [[name, n]...]]   user type printed through pretty_call
   ['c', text, n]   comment(value, text)
   ['tc', text, n]  trailing_comment(value, text)
@@ -25,6 +26,13 @@ def build(spec, with_comments=True):
         return frozenset(build(c, with_comments) for c in spec[1])
     if kind == 'dict':
         return {build(k, with_comments): build(v, with_comments) for k, v in spec[1]}
+    if kind in ('ulist', 'utuple'):
+        from vf import subcls
+        cls = subcls.PlainList if kind == 'ulist' else subcls.PlainTuple
+        return cls([build(c, with_comments) for c in spec[1]])
+    if kind == 'udict':
+        from vf import subcls
+        return subcls.PlainDict({build(k, with_comments): build(v, with_comments) for k, v in spec[1]})
     if kind == 'box':
         from vf.props.c02 import Box, register_box
         register_box()
@@ -47,10 +55,10 @@ def comments_of(spec):
     if kind in ('c', 'tc'):
         out.append((kind, spec[1]))
         out.extend(comments_of(spec[2]))
-    elif kind in ('list', 'tuple', 'set', 'frozenset'):
+    elif kind in ('list', 'tuple', 'set', 'frozenset', 'ulist', 'utuple'):
         for c in spec[1]:
             out.extend(comments_of(c))
-    elif kind == 'dict':
+    elif kind in ('dict', 'udict'):
         for k, v in spec[1]:
             out.extend(comments_of(k))
             out.extend(comments_of(v))
@@ -71,6 +79,10 @@ def show(spec):
         return o + ', '.join(show(x) for x in spec[1]) + c
     if kind == 'dict':
         return '{' + ', '.join('%s: %s' % (show(k), show(v)) for k, v in spec[1]) + '}'
+    if kind in ('ulist', 'utuple'):
+        return ('PlainList([' if kind == 'ulist' else 'PlainTuple([') + ', '.join(show(x) for x in spec[1]) + '])'
+    if kind == 'udict':
+        return 'PlainDict({' + ', '.join('%s: %s' % (show(k), show(v)) for k, v in spec[1]) + '})'
     if kind == 'box':
         return 'Box(' + ', '.join([show(x) for x in spec[1]] +
                                   ['%s=%s' % (n, show(x)) for n, x in (spec[2] if len(spec) > 2 else [])]) + ')'
